@@ -38,12 +38,20 @@ def mkCond (kind : Kind) (c : Int) : M Val :=
   | .const => pure (.int c)              -- a plain int condition
   | k => mkVal k (.int c)
 
+/-- what a FAILING construction of the condition object leaves behind: `PrivValBool(c)` is
+`LinCombBool(PrivVal(c))`, so the private value is recorded before the boolean check raises -/
+def condFailSt (kind : Kind) (c : Int) (s : St) : St :=
+  match kind with
+  | .privb => { s with priv := s.priv ++ [c] }
+  | .pubb => { s with pub := s.pub ++ [c] }
+  | _ => s
+
 mutual
 /-- returns (state, exception propagating?) -/
 def execEv : Ev → St → St × Bool
   | .guarded kind c body, s =>
     match mkCond kind c s with
-    | .error _ => (s, true)
+    | .error _ => (condFailSt kind c s, true)
     | .ok (cv, s1) =>
       match addGuard cv s1 with
       | .error _ => (s1, true)                      -- add_guard raised before anything was installed
@@ -53,7 +61,7 @@ def execEv : Ev → St → St × Bool
         ({ s3 with guard := bak.guard, ignoreErrors := bak.ignoreErrors, one := bak.one }, exc)
   | .raw kind c body, s =>
     match mkCond kind c s with
-    | .error _ => (s, true)
+    | .error _ => (condFailSt kind c s, true)
     | .ok (cv, s1) =>
       match addGuard cv s1 with
       | .error _ => (s1, true)
@@ -64,13 +72,17 @@ def execEv : Ev → St → St × Bool
   | .tryCatch body, s => ((execList body s).1, false)
   | .raise, s => (s, true)
   | .opLt a b, s =>
-    match (do let x ← privVal a; let y ← privVal b; ltLL x y) s with
+    -- the two operands are recorded before the comparison can raise (it raises in its hint, before allocating)
+    let s1 : St := { s with priv := s.priv ++ [a] }
+    let s2 : St := { s1 with priv := s1.priv ++ [b] }
+    match ltLL ⟨a, [(Wire.priv s.priv.length, 1)]⟩ ⟨b, [(Wire.priv s1.priv.length, 1)]⟩ s2 with
     | .ok (_, s') => (s', false)
-    | .error _ => (s, true)
+    | .error _ => (s2, true)
   | .opAssertZero a, s =>
-    match (do let x ← privVal a; assertZero x) s with
+    let s1 : St := { s with priv := s.priv ++ [a] }
+    match assertZero ⟨a, [(Wire.priv s.priv.length, 1)]⟩ s1 with
     | .ok (_, s') => (s', false)
-    | .error _ => (s, true)
+    | .error _ => (s1, true)
 
 def execList : List Ev → St → St × Bool
   | [], s => (s, false)
